@@ -60,7 +60,7 @@ ORDER = list(POOL)
 NOISE = ['@misc{noise1, title = {Noise one}, year = 1900}', '@article{noise2, author = {N. Oise}, title = {Noise two}, journal = {Nowhere}, year = 1901}',
          '@string{unusedmacro = "zzz"}', '@comment{ignored}']
 STYLES_QUICK = ['unsrt', 'plain', 'alpha']
-STYLES_ALL = ['unsrt', 'plain', 'alpha', 'abbrv']
+STYLES_ALL = ['unsrt', 'plain', 'alpha', 'unsrt_mixed']
 
 _STYLE_TEXT = {}
 
